@@ -330,7 +330,7 @@ func genItems(r *hx.Rand) []c20Item {
 	for k := 0; k < n; k++ {
 		switch r.Intn(10) {
 		case 0, 1, 2, 3, 4, 5:
-			items = append(items, c20Item{"field", r.Pick(docFields)})
+			items = append(items, c20Item{"field", r.Pick(c20AllFields())})
 		case 6:
 			items = append(items, c20Item{"header", r.Pick(headerNames)})
 		default:
